@@ -169,6 +169,13 @@ Theorem C12_no_fault_after_repair :
 Proof. intros c evs H. exact (mem_run_copy_no_fault c evs (mem_init c) H). Qed.
 Print Assumptions C12_no_fault_after_repair.
 
+(* The in-place helpers (OverwriteNTruncate, CleanUTF8, truncate in either form) never slice out of range: the only Go
+   panic any history can end with is the parser's first-token slice (site 4: defect 1 of DESIGN.md section 6, property C09). *)
+Theorem C12_inplace_helpers_in_range :
+  forall c evs g s, mem_run c g evs = StepStop (GoPanic s) -> s = 4%N.
+Proof. exact mem_run_panic_site. Qed.
+Print Assumptions C12_inplace_helpers_in_range.
+
 (* LONG-LIVED STORES (pipeline key sets, metric key sets) keep deep copies: a store of copies reads the same in every
    state of the pipeline, whatever happens to records, buffers and pools afterwards; routing a record either finds its
    key bytes or appends exactly these bytes. *)
